@@ -175,8 +175,10 @@ CLAIMED = {
         'unique_inference_sound, multiplicity_code_correct (+ raw-value refuted witness = pre-fix defect), PtP_rule_sound, '
         'indexed_axes_spec, reduce_identity_only_if_noop, pack_is_index_by_mask, pack_unpack_rule_sound, ctor theorems: 32 '
         'theorems closed under the global context. Tie: C-tie on ~2100 (quick) index expressions x shapes incl. reductions.',
-        'Partial: tuples with two or more array entries take their gather from the implementation (uniqueness tested, not '
-        'proved, for them). Trusts NumPy/JAX indexing spec, linear_transpose of a gather = scatter-add, jnp.unique/.at[].add '
+        'Tuples with two or more array entries (several integer arrays, mask + array, several masks: NumPy advanced indexing with '
+        'broadcasting and the adjacency rule) are MODELLED (index_adv) and covered by unique_inference_sound (now for every tuple), '
+        'index_T_is_scatter_add_any_tuple, PPt_identity_iff_any_tuple, PPt_rule_sound_when_inferred, gather_positions_in_range, '
+        'broadcast_masks_select_distinct (48 obligations). Left outside the model: np.newaxis entries and out-of-bounds integers. Trusts NumPy/JAX indexing spec, linear_transpose of a gather = scatter-add, jnp.unique/.at[].add '
         'specs, harness. Model follows fixes 0c57282 and 091cfac.',
         'DESIGN.md section 4, C12',
     ),
